@@ -138,7 +138,8 @@ Lemma w_openat2_ne fd p fl m rs : has fl O_CREAT = false -> ne (w_openat2 fz fd 
 Proof.
   intro Hfl. unfold w_openat2. destruct (negb (valid_fd fd)); [apply ne_ret|].
   destruct (OPENAT2_NUL_EINVAL && has_nul p); [apply fail1_ne|]. apply ne_call.
-  - cbn [eff]. destruct forced_no_creat as (_ & _ & _ & H4). rewrite has_creat_lor, Hfl, H4. reflexivity.
+  - cbn [eff]. destruct forced_no_creat as (_ & _ & _ & H4). unfold openat2_flags.
+    destruct (has _ O_PATH); rewrite !has_creat_lor, Hfl, H4; reflexivity.
   - intro r. destruct (as_fd r); [apply ne_ret|apply fail1_ne].
 Qed.
 
